@@ -318,10 +318,12 @@ def _predicates(F, r5):
         for q in tab.paths:
             rel = SR.variant(q, REL)
             matches = SR.eq_value(q, HOLDER, SUBJ) is True
-            if matches and SR.variant(q, SUBJ) == "Many":
+            if matches and SR.variant(q, SUBJ) != "One":
+                # `Many` — or a view of the subjects that does not say how many there are (iter().any(..), contains, first()):
+                # the holder counts as the subject only when the list is known to hold exactly one element (C02-O)
                 single = any(a[0] == "slice-shape" and a[2] == 1 and a[3] is True and c is True for (a, c, _, _) in q.decisions) or \
                     any(a[0] == "eq" and c is True and ("lit", 1) in (a[1], a[2]) and "len" in sym.fmt(a[1]) + sym.fmt(a[2]) for (a, c, _, _) in q.decisions)
-                r5.require(single, (fn, "url_matches-cmp"), "with several subjects the holder is compared with a subject although the list is not known to have exactly one element")
+                r5.require(single, (fn, "url_matches-cmp"), "the holder is compared with a subject although the subject list is not known to have exactly one element (the holder being one of several subjects is not the relationship)")
             nt = SR.variant(q, NT) == "Some" and q.val.get(("truth", ("payload", NT, "Some", 0))) is True
             nt_known = SR.variant(q, NT) is not None
             got_ok = SR.is_success(q.ret)
